@@ -123,6 +123,13 @@ def impl_inplace(case):
         mods = [implutil.mk_entity(m, "mod%d" % i) for i, m in enumerate(case["modules1"])]
     except Exception as e:  # noqa
         return None
+    # the plasmids of a laboratory carry literature citations: one citing feature on the vector (citations never
+    # change a product's sequence)
+    from Bio.SeqFeature import SeqFeature, FeatureLocation
+    from harness import recutil
+    vector.record.annotations["references"] = [recutil.mk_reference(3)]
+    vector.record.features.append(SeqFeature(FeatureLocation(0, 1, 1), type="misc_feature",
+                                             qualifiers={"citation": ["[1]"], "label": ["cited"]}))
     o1, _ = implutil.observe_assembly(vector, mods)
     j = [i for i, (a, b) in enumerate(zip(case["modules1"], case["modules2"])) if a["seq"] != b["seq"]]
     if len(j) != 1:
